@@ -31,6 +31,8 @@ def case_grid(tier, seed, which):
     add("iupac", 4, 2, 1500, 12, 80, 16, 3, case=2, n=rep)
     add("iupac", 4, 1, 2500, 10, 60, 15, 16, crlf=True, width=1000, n=rep)
     add("short", 3, 2, 800, 15, 200, 20, 2, n=rep)
+    add("trunc", 6, 2, 1400, 11, 100, 15, 3, n=rep)
+    add("trunc", 5, 2, 1600, 12, 150, 18, 2, mode="single", n=rep)
     add("reorder", 6, 3, 900, 11, 100, 15, 4, n=rep)
     add("basic", 3, 3, 1000, 11, 100, 15, 3, mode="single", n=rep)
     add("rc", 4, 2, 1200, 9, 60, 15, 2, mode="single", case=1, n=rep)
